@@ -26,6 +26,11 @@ func init() {
 				c.R.Floor("C13.R6", runAs(c, "C13.R6", c12R2, nil), 14)
 			}},
 			{ID: "C13.R5", Doc: "what is stored is the value that was given: parseVal maps every Go type to the constructor of its kind through value-preserving conversions, and the constructors wrap their argument unchanged (= C12.R1)", Run: func(c *Ctx) { c.R.Floor("C13.R5", runAs(c, "C13.R5", c12R1, nil), 10) }},
+			{ID: "C13.R7", Doc: "the visitors native() iterates with (ForEach, ForEachValue) visit every entry of every container, the empty one included, and do nothing else (= C14.R1 on the untyped visitors)", Run: func(c *Ctx) {
+				c.R.Floor("C13.R7", runAs(c, "C13.R7", c14Run, func(o *Obligation) bool {
+					return strings.Contains(o.Construct, ").ForEach/") || strings.Contains(o.Construct, ").ForEachValue/")
+				}), 3)
+			}},
 			{ID: "C13.R3", Doc: "no aliasing by typing and origin: struct shapes, FRESH Go-typed results, element-wise From-constructors", Run: func(c *Ctx) {
 				structShapeRule(c, "C13.R3")
 				c13Fresh(c)
@@ -130,6 +135,7 @@ func c13Native(c *Ctx) {
 		var ct *Cont
 		var operand Term
 		bad := ""
+		scalarArm := false
 		for _, cd := range p.Conds() {
 			op, T, isTest := kindTestOf(cd.T)
 			if !isTest || !isParamTerm(op, par) {
@@ -139,12 +145,44 @@ func c13Native(c *Ctx) {
 			if cd.Truth {
 				ct = c.Inv().ContByIface(T)
 				if ct == nil {
+					// an arm for a type no container can have (nil, or a concrete type that implements neither container interface) that
+					// hands the operand back unchanged is the default arm taken early
+					scalar := T == nil
+					if T != nil {
+						if _, isI := T.Underlying().(*types.Interface); !isI {
+							scalar = true
+							for _, k := range c.Inv().Conts {
+								if ki, ok := k.Iface.Underlying().(*types.Interface); ok && (types.Implements(T, ki) || types.Implements(types.NewPointer(T), ki)) {
+									scalar = false
+								}
+							}
+						}
+					}
+					if scalar {
+						scalarArm = true
+						continue
+					}
 					bad = "arm for a non-container type " + shortType(T)
 				}
 				operand = TAssert{op, T}
 			}
 		}
 		n++
+		if bad == "" && ct == nil && scalarArm {
+			r := Term(nil)
+			if p.End == "return" && len(p.Vals) == 1 {
+				r = p.Vals[0]
+				if pr, ok := r.(TProj); ok && pr.K == 0 {
+					r = pr.X
+				}
+				if as, ok := r.(TAssert); ok {
+					r = as.X
+				}
+			}
+			ob := c.Ob("C13.R1", "native/scalar arm#"+itoa(i+1), posOfNode(p.Node))
+			ob.Check(r != nil && isParamTerm(r, par) && len(p.Effects()) == 0, "an arm for types no container has returns its operand unchanged", "an arm for scalar types does not return its operand unchanged")
+			continue
+		}
 		if bad != "" {
 			c.Ob("C13.R1", "native/path#"+itoa(i+1), posOfNode(p.Node)).Fail("%s", bad)
 			continue
